@@ -110,8 +110,11 @@ def run(ctx):
     traces = []
     for labels, s in A.c19_streams(ctx.rng, thorough=not ctx.quick, nrandom=ctx.pick(200, 3000)):
         cuts = ()
-        if ctx.rng.random() < ctx.pick(0.15, 0.3):
-            cuts = sorted({ctx.rng.randrange(len(s) + 1) for _ in range(2)})
+        x = ctx.rng.random()
+        if x < ctx.pick(0.15, 0.3):
+            cuts = sorted({ctx.rng.randrange(len(s)) for _ in range(2)})
+        elif x < ctx.pick(0.4, 0.6) and s.endswith(A.FOLLOW):
+            cuts = (len(s) - len(A.FOLLOW),)      # exactly the end of the request under test: complete => handed over now
         traces.append(make_trace(labels, s, cuts))
     crashes = sum(1 for t in traces for x in t["diag"] if x != "ok")
     ctx.extra["dataReceived_exceptions"] = crashes
@@ -119,7 +122,7 @@ def run(ctx):
     for t in slim:
         ctx.note_trace(t, nontrivial=any(e["o"] for e in t["ev"]))
     ctx.log("recorded %d streams (%d octets, %d real runs)" % (len(traces), sum(len(t["stream"]) for t in traces), sum(len(t["ev"]) for t in traces)))
-    rej = ctx.validate("HttpSrvWireTrace", slim, shard_size=ctx.pick(300, 1000))
+    rej = ctx.validate("HttpSrvWireTrace", slim, shard_size=ctx.pick(150, 500))
     for x in rej:
         if len(ctx.violations) >= 25:
             break
@@ -147,7 +150,7 @@ def run_mc(ctx):
 
     if os.path.exists(os.path.join(SPECS, "HttpSrvWireMC.tla")):
         # no -coverage here: TLC's cost model of the deeply recursive parser operators exhausts the heap
-        for cfg in ctx.pick(["HttpSrvWireMC.cfg"], ["HttpSrvWireMC.thorough.cfg", "HttpSrvWireMC.thorough2.cfg"]):
+        for cfg in ctx.pick(["HttpSrvWireMC.cfg"], ["HttpSrvWireMC.cfg", "HttpSrvWireMC.thorough.cfg"]):
             r = ctx.mc("HttpSrvWireMC", cfg, coverage=False, timeout=ctx.pick(900, 3000))
             if not r.ok:
                 raise MachineryError("HttpSrvWire reference inconsistent with its serialiser: %s\n%s" % (r.error, "".join(r.cex[-2:])[-3000:]))
